@@ -12,8 +12,8 @@ EXPLANATION = ("Guard dominance in ServerHashVerification::verify_server_cert: e
                "nobody calls HandshakeSignatureValid::assertion(); signature checks delegate to rustls with the provider's algorithms. Wiring: "
                "with_server_certificate_hashes installs ServerHashVerification over an empty root store, with_native_certs installs no custom "
                "verifier, build_default_tls_config sets the verifier iff Some; the builder method with_no_cert_validation does not exist in the "
-               "default-feature build.")
-NOT_DECIDED = ["rustls/webpki chain validation", "x509-parser's parsing", "the clock"]
+               "default-feature build; the native root store is loaded while the guard that hides SSL_CERT_FILE / SSL_CERT_DIR is alive (drop ordering on every path).")
+NOT_DECIDED = ["what rustls-native-certs reads besides the two environment variables", "rustls/webpki chain validation", "x509-parser's parsing", "the clock"]
 TRUSTED = ["rustc MIR", "x509-parser accessors and OID constants", "sha2::Sha256", "rustls dangerous() API semantics"]
 
 V = "<wtransport::tls::client::ServerHashVerification as rustls::client::danger::ServerCertVerifier>::"
@@ -113,6 +113,33 @@ def run(ctx):
         roots = all(any(re.match(r"^ConfigBuilder<ClientConfig, WantsVerifier>::with_root_certificates\(.*,root_store\)$", e) or "with_root_certificates(" in e and e.endswith(",root_store)") for e in event_strs(p)) for p in ps)
     ctx.check("C10-R4", "verifier installed iff Some", ok1 and ok2, "client build_default_tls_config does not install the custom verifier exactly when it is Some", where(g))
     ctx.check("C10-R4", "root store passed to rustls", roots, "client build_default_tls_config does not hand the given root store to rustls", where(g))
+    ctx.rule("C10-R5", "default trust anchors = the platform store only: SSL_CERT_FILE / SSL_CERT_DIR are hidden while the native certs are loaded")
+    g = A.fn("wtransport::tls::build_native_cert_store")
+    ps = walk(g)
+    n = 0
+    bad = []
+    for p in ps:
+        seq = [(e[0], e[1] if e[0] == "call" else canon(e[1])) for e in p.events if e[0] in ("call", "drop")]
+        loads = [i for i, (k, x) in enumerate(seq) if k == "call" and x.endswith("load_native_certs")]
+        hides = [i for i, (k, x) in enumerate(seq) if k == "call" and x.endswith("utils::remove_vars_tmp")]
+        drops = [i for i, (k, x) in enumerate(seq) if k == "drop" and x.startswith("remove_vars_tmp(")]
+        if not loads:
+            continue
+        n += 1
+        ok = bool(hides) and hides[0] < loads[0] and not any(d < loads[-1] for d in drops)
+        if not ok:
+            bad.append([x.split("::")[-1][:40] for _, x in seq][:8])
+    ctx.check("C10-R5", "env overrides hidden across load_native_certs()", n > 0 and not bad,
+              "build_native_cert_store loads the native certificates while SSL_CERT_FILE / SSL_CERT_DIR are visible (the guard returned by "
+              "remove_vars_tmp is not alive across load_native_certs()): with the default trust policy the environment can then name the trust anchors: %s" % bad[:2], where(g),
+              key="native store: env guard alive across load")
+    names = sorted({canon(e[2][0]) for p in ps for e in p.events if e[0] == "call" and e[1].endswith("utils::remove_vars_tmp")})
+    ctx.check("C10-R5", "both variables hidden", len(names) == 1 and "SSL_CERT_FILE" in names[0] and "SSL_CERT_DIR" in names[0],
+              "remove_vars_tmp is not called with SSL_CERT_FILE and SSL_CERT_DIR: %s" % names, where(g))
+    g2 = A.find1(r"^wtransport::tls::utils::remove_vars_tmp::\{closure#0\}$")
+    ev = [e for p in nonpanic(walk(g2)) for e in event_strs(p)]
+    ctx.check("C10-R5", "remove_vars_tmp removes each variable", any(e.startswith("remove_var(") for e in ev), "remove_vars_tmp no longer calls env::remove_var: %s" % ev[:4], where(g2))
+
     # default-feature build: the insecure verifier and its builder method do not exist
     ins = [fn.path for fn in B.fn_list if fn.path.endswith("with_no_cert_validation")]
     ctx.check("C10-R4", "no `with_no_cert_validation` builder without the `dangerous-configuration` feature", not ins, "default-feature build contains %s" % ins[:3])
